@@ -5,13 +5,18 @@ blob.go, deleter.go, lister.go, desciter.go) as a sequential state machine.
 Parameters: the hash `H : Bytes → Bytes` (`digest.FromBytes`, i.e. the text
 `sha256:<hex>`); no theorem assumes anything about it. JSON decoding of manifests
 is done by the harness with the same `json.Unmarshal` the code uses and arrives
-as `Decoded`. Maps are association lists with unique keys (`AssocList`); Go map
+as `Decoded` (one exception, F42: where `refersTo` reads stored bytes as a media type
+they were NOT pushed with, nobody decoded them at the push, and the model's own decoder
+`ManifestDecode.decodeRefs` — checked against the Go decoder by C02J — is used: `refsAs`).
+Maps are association lists with unique keys (`AssocList`); Go map
 iteration order never matters because every listing sorts.
 
 Error classes are OCI codes, or `ERR` for the un-coded errors ocimem returns.
 -/
 import OciModel.Base
 import OciModel.Ref
+import OciModel.MemData
+import OciModel.ManifestDecode
 
 namespace OciModel.Mem
 
@@ -27,28 +32,7 @@ def aerase {β} (k : Bytes) : List (Bytes × β) → List (Bytes × β)
 
 def ainsert {β} (k : Bytes) (v : β) (m : List (Bytes × β)) : List (Bytes × β) := (k, v) :: aerase k m
 
-/-! ### Data -/
-
-structure Desc where
-  mediaType : Bytes
-  digest    : Bytes
-  size      : Int
-  deriving DecidableEq, Repr
-
-/-- A reference found inside a decoded manifest. `kind`: 0 blob (layer, config),
-1 manifest (index entry), 2 subject. -/
-structure RefInfo where
-  kind : Nat
-  desc : Desc
-  deriving DecidableEq, Repr
-
-/-- What `json.Unmarshal` into `ocispec.Manifest` / `ocispec.Index` gave for the
-pushed bytes under the pushed media type: `opaque` for any other media type. -/
-inductive Decoded where
-  | opaque
-  | malformed
-  | refs (rs : List RefInfo)
-  deriving DecidableEq, Repr
+/-! ### Data (`Desc`, `RefInfo`, `Decoded`: see `MemData.lean`) -/
 
 structure Blob where
   mediaType : Bytes
@@ -163,10 +147,25 @@ def checkRefs (rp : Repo) : List RefInfo → Bytes → Option Bytes
     else if r.kind = 1 then (if (alookup r.desc.digest rp.manifests).isSome then checkRefs rp rest subj else none)
     else checkRefs rp rest r.desc.digest
 
+/-- F42: what the stored bytes of `b` refer to when read as the media type `mt` a
+referring descriptor declares for them, where that is not the media type they are
+stored with (`manifestReferences(info.desc.MediaType, b.data)` in `refersTo`): the
+same bytes may have been stored under another media type while no tag led to them.
+Bytes that do not decode as `mt`, and media types ocimem cannot look inside, give
+nothing. The decoder is the model's (`ManifestDecode.decodeRefs`, C02J), not a hint:
+nobody decoded the bytes under `mt` when they were pushed. -/
+def refsAs (b : Blob) (mt : Bytes) : List RefInfo :=
+  if mt = b.mediaType then []
+  else match ManifestDecode.decodeRefs mt b.data with
+    | .refs rs => rs
+    | _ => []
+
 /-- `refersTo`: is `target` referred to, directly or through stored manifests, by
 the given references? Fuel bounds the recursion depth (references to manifests
 must pre-exist, so the real recursion is bounded by the number of manifests;
-a cycle through dangling subjects would need a hash fixed point). -/
+a cycle through dangling subjects would need a hash fixed point).
+F42: a stored manifest is followed under the media type it is stored with (F15) and
+also under the one the referring descriptor declares for it (`refsAs`). -/
 def refersTo (rp : Repo) (target : Bytes) : Nat → List RefInfo → Bool
   | 0, _ => false
   | _, [] => false
@@ -176,7 +175,7 @@ def refersTo (rp : Repo) (target : Bytes) : Nat → List RefInfo → Bool
       let inner :=
         if r.kind = 1 ∨ r.kind = 2 then
           match alookup r.desc.digest rp.manifests with
-          | some b => refersTo rp target fuel b.refs
+          | some b => refersTo rp target fuel b.refs || refersTo rp target fuel (refsAs b r.desc.mediaType)
           | none => false
         else false
       inner || refersTo rp target (fuel + 1) rest
@@ -185,8 +184,10 @@ termination_by fuel l => (fuel, l.length)
 /-- `repoTagIter`: every tag as a manifest reference. -/
 def tagRefs (rp : Repo) : List RefInfo := rp.tags.map fun (_, d) => ⟨1, d⟩
 
+/-- F42: the fuel was `manifests.length + 2` when a stored manifest was followed under one
+media type; it can now be followed under three (`MemImmutable.Reach.bounded`). -/
 def taggedRefersTo (rp : Repo) (target : Bytes) : Bool :=
-  refersTo rp target (rp.manifests.length + 2) (tagRefs rp)
+  refersTo rp target (3 * rp.manifests.length + 2) (tagRefs rp)
 
 inductive Op where
   | getBlob (r d : Bytes)
